@@ -100,6 +100,16 @@ func Load(repo string, opt LoadOptions) (*Program, error) {
 		p = q
 	}
 	sort.Strings(renamed)
+	// expression helpers of the inventory that are gone: their inlined copies become calls again
+	if overlay, notes := p.reoutline(opt.Baseline); overlay != nil {
+		q, err := load(repo, opt, token.NewFileSet(), overlay)
+		if err != nil {
+			p.Notes = append(p.Notes, fmt.Sprintf("vanished helpers not restored (%v)", err))
+		} else {
+			q.Notes = append(p.Notes, "restored: "+strings.Join(notes, "; "))
+			p = q
+		}
+	}
 	p.Renamed = renamed
 	p.Normalise(opt.Baseline)
 	p.InlineNewHelpers(opt.Baseline)
